@@ -3,7 +3,13 @@ package main
 // splitmix64: every random choice of the harness derives from one state seeded by VERIF_SEED.
 type rng struct{ s uint64 }
 
-func newRng(seed uint64) *rng { return &rng{s: seed*0x9E3779B97F4A7C15 + 0x1234567} }
+func newRng(seed uint64) *rng {
+	// scramble the seed so that consecutive seeds do not give shifted copies of one stream
+	r := &rng{s: seed*0xD1342543DE82EF95 + 0x632BE59BD9B4E019}
+	r.s = r.next() ^ (seed << 32)
+	r.s = r.next()
+	return r
+}
 
 func (r *rng) next() uint64 {
 	r.s += 0x9E3779B97F4A7C15
